@@ -59,6 +59,7 @@ func (c06) Gen(r *rand.Rand, tier string, idx int) *core.Plan {
 	w["accuracy"] = int64(core.Pick(r, 0, 1, 5, 0, 2))
 	w["accMillis"] = int64(core.Pick(r, 0, 0, 0, 500, 999))
 	// a second signature by the same signer with its own expiry, verified by the same process in between
+	w["entry"] = int64(r.IntN(2)) // OCI or blob entry point
 	w["expiryB"] = int64(r.IntN(3))
 	w["expiryAction"] = int64(core.Pick(r, 0, 0, 1)) // log (both validations always reported) / enforce (a failed expiry ends the verification)
 	n := 1 + r.IntN(6)
@@ -320,8 +321,8 @@ func (l c06) Exec(env *core.Env) *core.Result {
 				rogue = 0
 				res.Probe("second_signature_verified")
 			}
-			config := fmt.Sprintf("%s sig=%d expiryAction=%s", config, inst.which, expiryAction)
-			outcome, verr := v.Verify(ctx, desc, sig, notation.VerifierVerifyOptions{ArtifactReference: "registry.example/repo@" + desc.Digest.String(), SignatureMediaType: format})
+			config := fmt.Sprintf("%s sig=%d expiryAction=%s entry=%d", config, inst.which, expiryAction, w["entry"])
+			outcome, verr := verifyEntry(ctx, v, w["entry"], desc, sig, format)
 			var exp, ts *notation.ValidationResult
 			if outcome != nil {
 				for _, r := range outcome.VerificationResults {
